@@ -1338,10 +1338,10 @@ _bucket_setstate(Bucket *self, PyObject *state)
 
         COPY_KEY_FROM_ARG(self->keys[i], k, copied);
         if (!copied)
-            return -1;
+            goto unusable_item;
         COPY_VALUE_FROM_ARG(self->values[i], v, copied);
         if (!copied)
-            return -1;
+            goto unusable_item;
         INCREF_KEY(self->keys[i]);
         INCREF_VALUE(self->values[i]);
     }
@@ -1354,6 +1354,15 @@ _bucket_setstate(Bucket *self, PyObject *state)
     }
 
     return 0;
+
+unusable_item:
+    /* self->len is still 0:  nobody will ever release the items taken so
+     * far unless we do it here. */
+    while (--i >= 0) {
+        DECREF_KEY(self->keys[i]);
+        DECREF_VALUE(self->values[i]);
+    }
+    return -1;
 }
 
 static PyObject *
